@@ -1411,13 +1411,19 @@ namespace link_layer {
         static constexpr delta_time maximum_transmit_window_offset( 10 * 1000 );
         static constexpr delta_time maximum_connection_timeout( 32 * 1000 * 1000 );
         static constexpr delta_time minimum_connection_timeout( 100 * 1000 );
+        static constexpr delta_time minimum_connection_interval( 6 * us_per_digits );
+        static constexpr delta_time maximum_connection_interval( 3200 * us_per_digits );
 
-        return transmit_window_size_ <= maximum_transmit_window_offset
+        // the range checks of interval and latency come first, they keep the product below from overflowing
+        return connection_interval_ >= minimum_connection_interval
+            && connection_interval_ <= maximum_connection_interval
+            && !transmit_window_size_.zero()
+            && transmit_window_size_ <= maximum_transmit_window_offset
             && transmit_window_size_ <= connection_interval_
             && connection_timeout_ >= minimum_connection_timeout
             && connection_timeout_ <= maximum_connection_timeout
-            && connection_timeout_ >= ( peripheral_latency_ + 1 ) * 2 * connection_interval_
-            && peripheral_latency_ <= maximum_link_layer_peripheral_latency;
+            && peripheral_latency_ <= maximum_link_layer_peripheral_latency
+            && connection_timeout_ > ( peripheral_latency_ + 1 ) * 2 * connection_interval_;
     }
 
     template < class Server, template < std::size_t, std::size_t, class > class ScheduledRadio, typename ... Options >
